@@ -313,11 +313,73 @@ def run_days(block, ctx):
     ctx.sample({"year": block[0]})
 
 
+# -- thorough: independent TLA+ model of the leap-second automaton enumerated by TLC ------------------
+
+def leap_tlc_states(y0, y1):
+    import os
+    import re
+    import shutil
+    import subprocess
+    import tempfile
+    from .. import ROOT
+    tmp = tempfile.mkdtemp(prefix="vmc_tlc_")
+    try:
+        shutil.copy(os.path.join(ROOT, "models", "LeapSeconds.tla"), tmp)
+        with open(os.path.join(tmp, "LeapSeconds.cfg"), "w") as f:
+            f.write("CONSTANTS\n Y0 = %d\n Y1 = %d\nSPECIFICATION Spec\nINVARIANT TypeOK\n" % (y0, y1))
+        dump = os.path.join(tmp, "states")
+        r = subprocess.run(["tlc", "-workers", "1", "-noGenerateSpecTE", "-deadlock", "-metadir",
+                            os.path.join(tmp, "meta"), "-dump", dump, "LeapSeconds"], cwd=tmp, capture_output=True,
+                           text=True, timeout=1200)
+        if "Model checking completed. No error has been found" not in r.stdout:
+            raise RuntimeError("TLC failed:\n" + r.stdout[-2000:] + r.stderr[-500:])
+        return [dict((k, int(v)) for k, v in re.findall(r"/\\ (\w+) = (-?\d+)", blk))
+                for blk in open(dump + ".dump").read().split("State ")[1:]]
+    finally:
+        shutil.rmtree(tmp, ignore_errors=True)
+
+
+def run_tlc(window, ctx):
+    y0, y1 = window
+    states = sorted(leap_tlc_states(y0, y1), key=lambda s: (s["y"], s["m"]))
+    ref = dict(((y, m), c) for (y, m, c) in iers.states(y0, y1))
+    prev = None
+    for s in states:
+        y, m, c = s["y"], s["m"], s["c"]
+        ctx.states += 1
+        ctx.transitions += 1
+        ctx.evals += 4
+        if y >= 1972:
+            ctx.nt_count += 1
+        if ref.get((y, m)) != c:
+            ctx.viol({"y": y, "m": m, "count": c}, "TLA+ model count %d at (%d,%d), Python model %r"
+                     % (c, y, m, ref.get((y, m))), site="tlc_model")
+        for msg in check_table(y, m, c, prev):
+            ctx.viol({"y": y, "m": m, "count": c}, msg, site="table")
+        prev = c
+        L = cal.mlen(y, m)
+        for d, t in ((1, TIMES[0]), (15, TIMES[1]), (L, TIMES[1])):
+            for site, msg, dev in check_offset(y, m, d, t, c):
+                ctx.viol({"y": y, "m": m, "d": d, "h": t[0], "count": c, "last_day": d == L}, msg, dev=dev, site=site)
+        ctx.outcome(c)
+    if len(states) != len(ref):
+        ctx.viol({"y": y0, "m": 1, "count": 0}, "TLC dumped %d states, the Python model has %d" % (len(states), len(ref)),
+                 site="tlc_model")
+    ctx.traces += 1
+    ctx.count("tlc_states_dumped", len(states))
+    ctx.obs(window, len(states))
+    ctx.sample({"tlc_window": list(window), "states": len(states), "last": states[-1]})
+
+
 def clauses(tier):
     st = iers.states(1950, 2100)
     extra = []
     if tier == "thorough":
-        extra = [Clause("every_day", chunks(list(range(1969, 2022)), 53), run_days,
+        import shutil
+        if shutil.which("tlc"):
+            extra.append(Clause("tlc_cross_model", [(1950, 2100)], run_tlc, replay_states, floor=1000, shape="S"))
+    if tier == "thorough":
+        extra += [Clause("every_day", chunks(list(range(1969, 2022)), 53), run_days,
                         lambda c: [x[1] for x in check_offset(c["y"], c["m"], c["d"], (c["h"], 59 if c["h"] else 0, c.get("s", 0.0)), c["count"])],
                         floor=10000, shape="S")]
     import itertools
